@@ -27,7 +27,7 @@ Kern(fam, n) ==
                                     ELSE IF i % 3 = 1 THEN {i, Pred(n, i, 1)} ELSE {Pred(n, i, 1), Pred(n, i, 3)}
                [] fam = "none"   -> {} ]]                                 \* no dependency at all: every append is empty
 
-MC_KTab == [id \in Kernels |-> Build(Kern(id[1], id[2]))]
+MC_KTab(id) == Build(Kern(id[1], id[2]))
 
 D4     == { <<"dense", 4>> }
 K4     == { <<"chain", 4>>, <<"dense", 4>>, <<"mixed", 4>> }
@@ -65,9 +65,9 @@ EmitTable ==
      CSVWrite("%1$s", <<ToJson([fam |-> id[1], n |-> id[2],
                                 src |-> [i \in 1..id[2] |-> SortedSeq(Kern(id[1], id[2]).src[i])],
                                 lat |-> Kern(id[1], id[2]).lat,
-                                np  |-> MC_KTab[id].np,
-                                cyc |-> [r \in 1..id[2] |-> MC_KTab[id].cyc[r]],
-                                full |-> FullResult(MC_KTab[id])])>>, IOEnv.OUTFILE)
+                                np  |-> MC_KTab(id).np,
+                                cyc |-> [r \in 1..id[2] |-> MC_KTab(id).cyc[r]],
+                                full |-> FullResult(MC_KTab(id))])>>, IOEnv.OUTFILE)
 AllPars == { [kid |-> id, n |-> id[2], nw |-> nw, to |-> to] : id \in Kernels, nw \in 0..64, to \in Timeouts }
 FirstPar == CHOOSE p \in { q \in AllPars : q.nw \in NWOf(q.kid) } : TRUE
 EmitOnce == (cpc = "start" /\ par = FirstPar) => EmitTable
